@@ -15,6 +15,7 @@ VERIF = os.path.dirname(os.path.dirname(os.path.abspath(__file__)))
 def main():
     src, sid, prop, caught = sys.argv[1:5]
     note = sys.argv[5] if len(sys.argv) > 5 else ''
+    logname = sys.argv[6] if len(sys.argv) > 6 else None
     dst = os.path.join(VERIF, 'seeded', sid)
     os.makedirs(dst, exist_ok=True)
     for f in ('patch.diff', 'demo.py'):
@@ -23,7 +24,7 @@ def main():
         meta = json.load(open(os.path.join(src, 'meta.json')))
     except Exception:  # pylint: disable=broad-except
         meta = {}
-    name = sid.replace('-', '_')
+    name = logname or sid.replace('-', '_')
     tests = ''
     for fn in sorted(os.listdir(os.path.join(VERIF, 'work', 'seedlogs'))):
         if fn.startswith('tests_'):
